@@ -5,8 +5,9 @@
            2 t (code a b)*            one engine cycle at time t with its scripted mutations
    TSS ops 1 add k | 2 remove k | 3 clear | 4 reserve c | 5 touch
    TSD ops 1 set k v | 2 erase k | 3 clear | 4 reserve c | 5 touch | 6 create k (at(k), child untouched)
-   TSW ops 1 push v | 3 clear *)
-Require Import Base Coll Window.
+   TSW ops 1 push v | 3 clear
+   TSB/TSL ops 1 set i v *)
+Require Import Base Coll Window Fixed.
 
 Fixpoint triples (l : list Z) : list (Z * Z * Z) :=
   match l with
@@ -66,7 +67,8 @@ Definition tss_obs (t : Z) (s : tss) : wire :=
     bits_line 27 n (t_rem s);
     28 :: sortz (tss_value s);
     29 :: b2z (t_lmt s =? t) :: (if t_lmt s =? t then sortz (tss_raw_added s) else []);
-    30 :: b2z (t_lmt s =? t) :: (if t_lmt s =? t then sortz (tss_raw_removed s) else []) ].
+    30 :: b2z (t_lmt s =? t) :: (if t_lmt s =? t then sortz (tss_raw_removed s) else []);
+    [37; b2z m] ].
 
 Fixpoint tss_cycles (cs : list (Z * list (Z * Z * Z))) (s : tss) : wire :=
   match cs with
@@ -119,7 +121,8 @@ Definition tsd_obs (t : Z) (s : tsd) : wire :=
     28 :: flat_rows (rows_where (fun _ x => live x) (fun i _ => [c_val (child_at s i)]) 0 sl);
     29 :: b2z cur :: (if cur then flat_rows (rows_where (fun i x => live x && bit i (d_mod s))
                                                (fun i _ => [c_val (child_at s i)]) 0 sl) else []);
-    30 :: b2z cur :: (if cur then sortz (keys_where (fun i _ => bit i (d_rem s)) 0 sl) else []) ].
+    30 :: b2z cur :: (if cur then sortz (keys_where (fun i _ => bit i (d_rem s)) 0 sl) else []);
+    [37; b2z (tsd_modified t s)] ].
 
 Fixpoint tsd_cycles (cs : list (Z * list (Z * Z * Z))) (s : tsd) : wire :=
   match cs with
@@ -139,7 +142,8 @@ Definition win_obs (t : Z) (w : win) : wire :=
     21 :: w_values w;
     22 :: w_times w;
     28 :: w_values w;
-    29 :: (if cur then match rev (w_values w) with x :: _ => [1; x] | [] => [0] end else [0]) ].
+    29 :: (if cur then match rev (w_values w) with x :: _ => [1; x] | [] => [0] end else [0]);
+    [37; b2z (w_modified t w)] ].
 
 Fixpoint win_cycles (cs : list (Z * list (Z * Z * Z))) (w : win) : wire :=
   match cs with
@@ -147,6 +151,32 @@ Fixpoint win_cycles (cs : list (Z * list (Z * Z * Z))) (w : win) : wire :=
   | (t, ops) :: r =>
       let '(res, st) := run_ops (win_op t) (map dec_wop ops) (false, w) in
       ((19 :: res) :: win_obs t (snd st)) ++ win_cycles r (snd st)
+  end.
+
+
+(* ---- TSB / TSL of TS<int> children *)
+Definition dec_fop (x : Z * Z * Z) : fop :=
+  let '(c, a, b) := x in
+  if c =? 1 then (if a <? 0 then FSet 1000%nat b else FSet (Z.to_nat a) b) else FNop.
+
+Definition fixed_obs (t : Z) (s : fixed) : wire :=
+  let n := length (f_ch s) in
+  let v := negb (f_lmt s =? MIN_DT) in
+  let idx := seq 0 n in
+  let dl := flat_map (fun i => match f_delta t s i with Some x => [zn i; x] | None => [] end) idx in
+  let md := flat_map (fun i => match f_delta t s i with Some _ => [zn i] | None => [] end) idx in
+  [ [20; t; b2z (f_modified t s); b2z v; b2z (v && forallb (fun i => c_valid (f_child s i)) idx); f_lmt s; zn n];
+    33 :: flat_map (fun i => let c := f_child s i in [zn i; b2z (c_valid c); if c_valid c then c_val c else 0; c_lmt c]) idx;
+    31 :: zn (length md) :: md;
+    29 :: b2z (f_lmt s =? t) :: dl;
+    [37; b2z (f_modified t s)] ].
+
+Fixpoint fixed_cycles (cs : list (Z * list (Z * Z * Z))) (s : fixed) : wire :=
+  match cs with
+  | [] => []
+  | (t, ops) :: r =>
+      let '(res, s1) := run_ops (f_op t) (map dec_fop ops) s in
+      ((19 :: res) :: fixed_obs t s1) ++ fixed_cycles r s1
   end.
 
 Definition run_coll (c : wire) : wire :=
@@ -157,6 +187,7 @@ Definition run_coll (c : wire) : wire :=
       else if k =? 2 then tsd_cycles cs tsd_empty
       else if k =? 3 then
         if p1 <=? 0 then [[18; 1]] else win_cycles cs (win_empty (Z.to_nat p1) (Z.to_nat p2))
+      else if (k =? 7) || (k =? 8) then fixed_cycles cs (fixed_empty 3)
       else [[18; 2]]
   | _ => [[18; 2]]
   end.
